@@ -1267,4 +1267,108 @@ example : (jacobiPoly (0 : ℚ) 0 1).eval 0 = 0 ∧
     rw [hC, ← Polynomial.monomial_zero_left, jacFunctional_monomial]
     simp [quadSum, dot, jacMoment]
 
+/-! ## `_make_multidim_func`: which one-dimensional rules are requested -/
+
+/-- **Argument handling of `_make_multidim_func`, every shape.**
+    (1) The 1-d shortcut is taken **iff** `n` and every argument have size 1.
+    (2) For `d = len n ≥ 2` and arguments whose sizes are all `1` or `d`, exactly `d` calls are planned
+        and call `i` is `one_d_func(n[i], …)` with parameter `j` equal to `args[j][i]`, or `args[j][0]` for a
+        size-1 (broadcast) argument.
+    (3) An error is planned **iff** the shortcut does not apply and (`d ≤ 1` or some argument, after the
+        broadcast, is shorter than `d`). -/
+theorem multidim_plan_spec (ns : List Nat) (args : List (List K)) :
+    ((∃ n ps, multidimPlan ns args = MDPlan.oneD n ps) ↔
+        (ns.length = 1 ∧ ∀ x ∈ args, x.length = 1)) ∧
+    (2 ≤ ns.length → (∀ x ∈ args, x.length = 1 ∨ x.length = ns.length) →
+      ∃ calls, multidimPlan ns args = MDPlan.multi calls ∧ calls.length = ns.length ∧
+        ∀ i, i < ns.length → calls.getD i (0, []) =
+          (ns.getD i 0, args.map fun x => if x.length = 1 then x.getD 0 0 else x.getD i 0)) ∧
+    ((multidimPlan ns args = MDPlan.indexError ∨ multidimPlan ns args = MDPlan.typeError) ↔
+      (¬ (ns.length = 1 ∧ ∀ x ∈ args, x.length = 1) ∧
+        (ns.length ≤ 1 ∨ ∃ x ∈ args, x.length ≠ 1 ∧ x.length < ns.length))) := by
+  have hall : (args.all (fun x => decide (x.length = 1)) = true) ↔ ∀ x ∈ args, x.length = 1 := by
+    simp [List.all_eq_true]
+  have hany : ((args.map fun x => if x.length = 1 then List.replicate ns.length (x.getD 0 0) else x).any
+      (fun x => decide (x.length < ns.length)) = true) ↔ ∃ x ∈ args, x.length ≠ 1 ∧ x.length < ns.length := by
+    simp only [List.any_eq_true, List.mem_map, decide_eq_true_eq]
+    constructor
+    · rintro ⟨y, ⟨x, hx, rfl⟩, hy⟩
+      by_cases h1 : x.length = 1
+      · rw [if_pos h1] at hy; simp at hy
+      · rw [if_neg h1] at hy; exact ⟨x, hx, h1, hy⟩
+    · rintro ⟨x, hx, h1, hlt⟩
+      exact ⟨_, ⟨x, hx, rfl⟩, by rw [if_neg h1]; exact hlt⟩
+  refine ⟨?_, ?_, ?_⟩
+  · unfold multidimPlan
+    constructor
+    · rintro ⟨n, ps, h⟩
+      by_cases hc : ns.length = 1 ∧ args.all (fun x => decide (x.length = 1)) = true
+      · exact ⟨hc.1, hall.mp hc.2⟩
+      · rw [if_neg hc] at h
+        dsimp only at h
+        split_ifs at h
+    · rintro ⟨h1, h2⟩
+      rw [if_pos ⟨h1, hall.mpr h2⟩]
+      exact ⟨_, _, rfl⟩
+  · intro hd hsz
+    unfold multidimPlan
+    have hc : ¬ (ns.length = 1 ∧ args.all (fun x => decide (x.length = 1)) = true) := by
+      rintro ⟨h1, _⟩; omega
+    rw [if_neg hc]
+    dsimp only
+    have hno : ¬ ((args.map fun x => if x.length = 1 then List.replicate ns.length (x.getD 0 0) else x).any
+        (fun x => decide (x.length < ns.length)) = true) := by
+      rw [hany]
+      rintro ⟨x, hx, h1, hlt⟩
+      rcases hsz x hx with h | h <;> omega
+    rw [if_neg hno, if_neg (by omega), if_neg (by omega)]
+    refine ⟨_, rfl, by simp, ?_⟩
+    intro i hi
+    simp only [List.getD_eq_getElem?_getD, List.getElem?_map, List.getElem?_range hi, Option.map_some,
+      Option.getD_some, List.map_map]
+    congr 1
+    apply List.map_congr_left
+    intro x hx
+    simp only [Function.comp]
+    by_cases h1 : x.length = 1
+    · simp [h1, hi]
+    · simp [h1]
+  · unfold multidimPlan
+    by_cases hc : ns.length = 1 ∧ args.all (fun x => decide (x.length = 1)) = true
+    · rw [if_pos hc]
+      have : ns.length = 1 ∧ ∀ x ∈ args, x.length = 1 := ⟨hc.1, hall.mp hc.2⟩
+      constructor
+      · rintro (h | h) <;> cases h
+      · rintro ⟨hn, _⟩; exact absurd this hn
+    · rw [if_neg hc]
+      dsimp only
+      have hc' : ¬ (ns.length = 1 ∧ ∀ x ∈ args, x.length = 1) := fun h => hc ⟨h.1, hall.mpr h.2⟩
+      by_cases ha : (args.map fun x => if x.length = 1 then List.replicate ns.length (x.getD 0 0) else x).any
+          (fun x => decide (x.length < ns.length)) = true
+      · rw [if_pos ha]
+        exact ⟨fun _ => ⟨hc', Or.inr (hany.mp ha)⟩, fun _ => Or.inl rfl⟩
+      · rw [if_neg ha]
+        have hna : ¬ ∃ x ∈ args, x.length ≠ 1 ∧ x.length < ns.length := fun h => ha (hany.mpr h)
+        by_cases h0 : ns.length = 0
+        · rw [if_pos h0]
+          exact ⟨fun _ => ⟨hc', Or.inl (by omega)⟩, fun _ => Or.inr rfl⟩
+        · rw [if_neg h0]
+          by_cases h1 : ns.length = 1
+          · rw [if_pos h1]
+            exact ⟨fun _ => ⟨hc', Or.inl (by omega)⟩, fun _ => Or.inl rfl⟩
+          · rw [if_neg h1]
+            constructor
+            · rintro (h | h) <;> cases h
+            · rintro ⟨_, h | h⟩
+              · omega
+              · exact absurd h hna
+
+/-- non-vacuity: `n = [3, 4]`, a scalar lower bound broadcast against a vector upper bound; the 1-d
+    shortcut; a too-short argument -/
+example : multidimPlan [3, 4] [[(1 : Rat)], [2, 5]] = MDPlan.multi [(3, [1, 2]), (4, [1, 5])] ∧
+    multidimPlan [3] [[(1 : Rat)], [2]] = MDPlan.oneD 3 [1, 2] ∧
+    multidimPlan [3, 4, 5] [[(1 : Rat), 2], [7]] = MDPlan.indexError ∧
+    multidimPlan [] [[(1 : Rat)], [2]] = MDPlan.typeError := by
+  refine ⟨?_, ?_, ?_, ?_⟩ <;> decide +kernel
+
 end QE.C08
